@@ -66,8 +66,11 @@ def pointee(t):
     return strip_quals(t[:-1]) if t.endswith("*") else None
 
 class Fn:
-    def __init__(self, node, alias, known):
-        self.node = node; self.name = alias; self.known = known
+    def __init__(self, node, alias, known, chk=False):
+        self.node = node; self.name = alias; self.known = known; self.chk = chk
+        self.structs = []       # names of pointer-to-struct parameters (their fields become variables/arrays on first use)
+        self.field_arrays = []  # arrays that came from struct fields or address-taken locals, in order of discovery
+        self.addr_taken = set()
         self.vars = []          # integer / pointer-offset variables, in order
         self.arrays = []        # array names
         self.base = {}          # pointer variable -> array name
@@ -81,11 +84,15 @@ class Fn:
         for p in self.params:
             self.declare(p["name"], qt(p), param=True)
         self.collect_locals(self.body)
+        if chk: self.vars.append("_oob"); self.vtype["_oob"] = "int"
 
     # ---- declarations
     def declare(self, name, t, param=False):
         if name in self.vtype: return
-        if is_ptr(t):
+        if is_ptr(t) and int_type(pointee(t)) is None and not is_ptr(pointee(t)):
+            if not param: raise Unsupported("local pointer to a struct: " + name)
+            self.vtype[name] = t; self.structs.append(name)                 # fields appear on use
+        elif is_ptr(t):
             self.vtype[name] = t; self.vars.append(name)
             if param:
                 self.arrays.append(name); self.base[name] = name
@@ -101,6 +108,20 @@ class Fn:
         for c in n.get("inner", []):
             self.collect_locals(c)
 
+    def field(self, e):
+        """MemberExpr p->f on a struct parameter -> ('var', name) | ('arr', name); declares it on first use"""
+        inner = e["inner"][0]
+        while inner.get("kind") in ("ImplicitCastExpr", "ParenExpr"): inner = inner["inner"][0]
+        if inner.get("kind") != "DeclRefExpr" or inner["referencedDecl"]["name"] not in self.structs:
+            raise Unsupported("member access on something that is not a struct parameter")
+        nm = "%s__%s" % (inner["referencedDecl"]["name"], e["name"]); t = qt(e)
+        if nm not in self.vtype:
+            self.vtype[nm] = t
+            if is_ptr(t) or re.match(r".*\[\d*\]$", strip_quals(t)):
+                self.arrays.append(nm); self.base[nm] = nm
+            elif int_type(t): self.vars.append(nm)
+            else: raise Unsupported("field %s of type %s" % (nm, t))
+        return ("arr", nm) if nm in self.arrays else ("var", nm)
     def fresh(self, p="s"):
         self.nfresh += 1; return "%s%d" % (p, self.nfresh)
 
@@ -124,11 +145,19 @@ class Fn:
                 if inner.get("kind") == "DeclRefExpr":
                     nm = inner["referencedDecl"]["name"]
                     if nm in self.arrays: return [], nm, "0", s
+                if inner.get("kind") == "MemberExpr":
+                    kind, nm = self.field(inner)
+                    if kind == "arr": return [], nm, "0", s
                 raise Unsupported("array decay of " + inner.get("kind", "?"))
             if ck == "NullToPointer": return [], None, "(-1)", s          # the null pointer: offset -1, no array
             raise Unsupported("pointer cast " + str(ck))
+        if k == "MemberExpr":
+            kind, nm = self.field(e)
+            if kind != "arr": raise Unsupported("integer field used as a pointer")
+            return [], nm, "0", s
         if k == "DeclRefExpr":
             nm = e["referencedDecl"]["name"]
+            if nm in self.arrays and nm not in self.vars: return [], nm, "0", s
             if nm not in self.base: raise Unsupported("pointer %s has no known array" % nm)
             return [], self.base[nm], "(v_%s %s)" % (nm, s), s
         if k == "BinaryOperator" and e["opcode"] in ("+", "-"):
@@ -186,14 +215,30 @@ class Fn:
             nm = e["referencedDecl"]["name"]
             if nm not in self.vtype: raise Unsupported("reference to " + nm)
             return ("var", nm, [], s)
+        if k == "MemberExpr":
+            kind, nm = self.field(e)
+            if kind == "var": return ("var", nm, [], s)
+            raise Unsupported("pointer field as an lvalue")
         if k == "UnaryOperator" and e["opcode"] == "*":
+            inner = e["inner"][0]
+            while inner.get("kind") in ("ParenExpr",): inner = inner["inner"][0]
+            if inner.get("kind") == "CallExpr" and self.callee_name(inner) == "__errno_location":
+                if "errno" not in self.vtype: self.vtype["errno"] = "int"; self.vars.append("errno")
+                return ("var", "errno", [], s)
             l, base, off, s1 = self.ptr(e["inner"][0], s)
-            return ("mem", base, off, qt(e), l, s1)
+            return self.mem_lv(base, off, qt(e), l, s1)
         if k == "ArraySubscriptExpr":
             a, i = e["inner"]
             l1, base, off, s1 = self.ptr(a, s); l2, v, s2 = self.tr(i, s1)
-            return ("mem", base, "(%s + %s)" % (off, v), qt(e), l1 + l2, s2)
+            return self.mem_lv(base, "(%s + %s)" % (off, v), qt(e), l1 + l2, s2)
         raise Unsupported("lvalue " + k)
+    def mem_lv(self, base, off, et, lets, s):
+        if base is None: raise Unsupported("access through a null pointer")
+        if not self.chk: return ("mem", base, off, et, lets, s)
+        o = self.fresh("o"); s1 = self.fresh()
+        lets = lets + ["let %s := %s in" % (o, off),
+                       "let %s := set_v__oob %s (Z.lor (v__oob %s) (b2z (negb (inb (a_%s %s) %s)))) in" % (s1, s, s, base, s, o)]
+        return ("mem", base, o, et, lets, s1)
     def store(self, lv, val, s):
         """-> (lets, s')"""
         s1 = self.fresh()
@@ -272,7 +317,13 @@ class Fn:
                 l1, _, s1 = self.tr(a, s); l2, v, s2 = self.tr(b, s1); return l1 + l2, v, s2
             if op in ("&&", "||"):
                 l1, v1, s1 = self.tr(a, s); l2, v2, s2 = self.tr(b, s1)
-                if l2 or s2 != s1: raise Unsupported("side effect on the right of " + op)
+                if l2 or s2 != s1:
+                    # the right operand has side effects: it runs only when the left one does not decide
+                    r = self.fresh("r"); x = self.fresh("x"); s3 = self.fresh()
+                    rhs = "(%s (b2z (negb (%s =? 0)), %s))" % (" ".join(l2), v2, s2)
+                    if op == "&&": pair = "(if %s =? 0 then (0, %s) else %s)" % (v1, s1, rhs)
+                    else: pair = "(if %s =? 0 then %s else (1, %s))" % (v1, rhs, s1)
+                    return l1 + ["let %s := %s in" % (r, pair), "let %s := fst %s in" % (x, r), "let %s := snd %s in" % (s3, r)], x, s3
                 if op == "&&": return l1, "(if %s =? 0 then 0 else b2z (negb (%s =? 0)))" % (v1, v2), s1
                 return l1, "(if %s =? 0 then b2z (negb (%s =? 0)) else 1)" % (v1, v2), s1
             if is_ptr(qt(a)) and is_ptr(qt(b)):
@@ -334,27 +385,110 @@ class Fn:
     def pure_after(self, v):
         return not re.search(r"\bs\d*\b", v) or True
 
-    def call(self, e, s):
+    def callee_name(self, e):
         callee = e["inner"][0]
         while callee.get("kind") in ("ImplicitCastExpr", "ParenExpr"): callee = callee["inner"][0]
-        nm = callee.get("referencedDecl", {}).get("name")
-        if nm not in self.known: raise Unsupported("call of " + str(nm))
+        return callee.get("referencedDecl", {}).get("name")
+    def addr_local(self, a):
+        """&x for an integer local x -> its name, else None"""
+        while a.get("kind") in ("ParenExpr", "ImplicitCastExpr", "CStyleCastExpr"): a = a["inner"][0]
+        if a.get("kind") == "UnaryOperator" and a.get("opcode") == "&":
+            x = a["inner"][0]
+            while x.get("kind") == "ParenExpr": x = x["inner"][0]
+            if x.get("kind") == "DeclRefExpr" and x["referencedDecl"]["name"] in self.vars: return x["referencedDecl"]["name"]
+        return None
+    def str_literal(self, a):
+        while a.get("kind") in ("ParenExpr", "ImplicitCastExpr", "CStyleCastExpr"): a = a["inner"][0]
+        if a.get("kind") == "StringLiteral":
+            v = json.loads(a["value"]) if a["value"].startswith('"') else a["value"]
+            return "[" + "; ".join(str(b) for b in v.encode("latin1")) + "; 0]"
+        return None
+    def builtin(self, nm, e, s):
+        args = e["inner"][1:]
+        if nm in ("__builtin_mul_overflow", "__builtin_add_overflow"):
+            l1, a, s1 = self.tr(args[0], s); l2, b, s2 = self.tr(args[1], s1)
+            r = self.addr_local(args[2])
+            if r is None: raise Unsupported(nm + " into something that is not a local")
+            exact = self.fresh("x"); op = "*" if "mul" in nm else "+"
+            lets = l1 + l2 + ["let %s := (%s %s %s) in" % (exact, a, op, b)]
+            w = self.wrap(self.vtype[r], exact); s3 = self.fresh()
+            lets.append("let %s := set_v_%s %s %s in" % (s3, r, s2, w))
+            return lets, "(b2z (negb (%s =? %s)))" % (w, exact), s3
+        if nm in ("stralloc_ready", "stralloc_readyplus"):
+            # gen_alloc.h: make room for n (or len + n) elements; growth to need + need/8 + 30; failure of the allocator is the
+            # run parameter alloc_ok.  (The arithmetic of the real function, incl. its overflow tests, is Mem/Stralloc.v's.)
+            sa = args[0]
+            while sa.get("kind") in ("ImplicitCastExpr", "ParenExpr"): sa = sa["inner"][0]
+            if sa.get("kind") != "DeclRefExpr" or sa["referencedDecl"]["name"] not in self.structs: raise Unsupported(nm + " on something that is not a struct parameter")
+            p = sa["referencedDecl"]["name"]
+            for f, t in (("s", "char *"), ("len", "unsigned int"), ("a", "unsigned int")):
+                fn_ = "%s__%s" % (p, f)
+                if fn_ not in self.vtype:
+                    self.vtype[fn_] = t
+                    if f == "s": self.arrays.append(fn_); self.base[fn_] = fn_
+                    else: self.vars.append(fn_)
+            if "alloc_ok" not in self.vtype: self.vtype["alloc_ok"] = "int"; self.vars.append("alloc_ok"); self.extra_params = getattr(self, "extra_params", []) + ["alloc_ok"]
+            l, n, s1 = self.tr(args[1], s)
+            need = self.fresh("x"); s2 = self.fresh(); ok = self.fresh("x")
+            needv = n if nm == "stralloc_ready" else "(v_%s__len %s + %s)" % (p, s1, n)
+            lets = l + ["let %s := %s in" % (need, needv),
+                        "let %s := b2z (orb (%s <=? v_%s__a %s) (negb (v_alloc_ok %s =? 0))) in" % (ok, need, p, s1, s1),
+                        "let %s := if orb (%s <=? v_%s__a %s) (v_alloc_ok %s =? 0) then %s else set_a_%s__s (set_v_%s__a %s (%s + Z.shiftr %s 3 + 30)) (pad (a_%s__s %s) (%s + Z.shiftr %s 3 + 30)) in"
+                        % (s2, need, p, s1, s1, s1, p, p, s1, need, need, p, s1, need, need)]
+            return lets, ok, s2
+        raise Unsupported("call of " + str(nm))
+    def call(self, e, s):
+        nm = self.callee_name(e)
+        if nm not in self.known: return self.builtin(nm, e, s)
         g = self.known[nm]
         lets = []; args = []; arr_args = []
         for a, p in zip(e["inner"][1:], g.params):
+            if p["name"] in g.structs:
+                aa = a
+                while aa.get("kind") in ("ImplicitCastExpr", "ParenExpr"): aa = aa["inner"][0]
+                if aa.get("kind") != "DeclRefExpr" or aa["referencedDecl"]["name"] not in self.structs: raise Unsupported("struct argument that is not a struct parameter")
+                mine = aa["referencedDecl"]["name"]
+                for f in g.arrays + g.vars:
+                    if not f.startswith(p["name"] + "__"): continue
+                    fld = f[len(p["name"]) + 2:]; my = "%s__%s" % (mine, fld)
+                    if my not in self.vtype:
+                        self.vtype[my] = g.vtype[f]
+                        if f in g.arrays: self.arrays.append(my); self.base[my] = my
+                        else: self.vars.append(my)
+                    if f in g.arrays: args.append("(a_%s %s)" % (my, s)); arr_args.append((f, my))
+                    else: args.append("(v_%s %s)" % (my, s)); arr_args.append((f, "=" + my))
+                continue
+            loc = self.addr_local(a) if is_ptr(qt(p)) else None
+            lit = self.str_literal(a) if is_ptr(qt(p)) else None
+            if loc is not None:
+                args.append("[v_%s %s]" % (loc, s)); args.append("0"); arr_args.append((p["name"], "&" + loc)); continue
+            if lit is not None:
+                args.append(lit); args.append("0"); continue
             if is_ptr(qt(p)):
                 l, base, off, s = self.ptr(a, s); lets += l
                 if base is None: args.append("[]"); args.append(off)          # a null pointer argument
                 else: args.append("(a_%s %s)" % (base, s)); args.append(off); arr_args.append((p["name"], base))
             else:
                 l, v, s = self.tr(a, s); lets += l; args.append(v)
+        for x in getattr(g, "extra_params", []):
+            if x not in self.vtype: self.vtype[x] = "int"; self.vars.append(x); self.extra_params = getattr(self, "extra_params", []) + [x]
+            args.append("(v_%s %s)" % (x, s))
         r = self.fresh("r"); s1 = s
         lets.append("let %s := %s.run fuel0 %s in" % (r, g.name, " ".join(args)))
         # result: option (Z * st); written arrays are copied back
         val = "(match %s with Some (v, _) => v | None => 0 end)" % r
         for pn, base in arr_args:
             s2 = self.fresh()
-            lets.append("let %s := match %s with Some (_, t) => set_a_%s %s (%s.a_%s t) | None => %s end in" % (s2, r, base, s1, g.name, pn, s1))
+            if base.startswith("="):
+                lets.append("let %s := match %s with Some (_, t) => set_v_%s %s (%s.v_%s t) | None => %s end in" % (s2, r, base[1:], s1, g.name, pn, s1))
+            elif base.startswith("&"):
+                lets.append("let %s := match %s with Some (_, t) => set_v_%s %s (rd (%s.a_%s t) 0) | None => %s end in" % (s2, r, base[1:], s1, g.name, pn, s1))
+            else:
+                lets.append("let %s := match %s with Some (_, t) => set_a_%s %s (%s.a_%s t) | None => %s end in" % (s2, r, base, s1, g.name, pn, s1))
+            s1 = s2
+        if self.chk and getattr(g, "chk", False):
+            s2 = self.fresh()
+            lets.append("let %s := match %s with Some (_, t) => set_v__oob %s (Z.lor (v__oob %s) (%s.v__oob t)) | None => %s end in" % (s2, r, s1, s1, g.name, s1))
             s1 = s2
         return lets, val, s1
 
@@ -465,10 +599,20 @@ class Fn:
         pnames = []; inits = {}
         for p in self.params:
             n = p["name"]
-            if is_ptr(qt(p)):
+            if n in self.structs:
+                for f in self.arrays + self.vars:
+                    if f.startswith(n + "__"):
+                        if f in self.arrays: pnames.append("(a_%s_ : list Z)" % f); inits["a_" + f] = "a_%s_" % f
+                        else: pnames.append("(%s_ : Z)" % f); inits["v_" + f] = f + "_"
+            elif is_ptr(qt(p)):
                 pnames += ["(a_%s_ : list Z)" % n, "(%s_ : Z)" % n]; inits["v_" + n] = n + "_"; inits["a_" + n] = "a_%s_" % n
             else:
                 pnames.append("(%s_ : Z)" % n); inits["v_" + n] = n + "_"
+        for x in getattr(self, "extra_params", []):
+            pnames.append("(%s_ : Z)" % x); inits["v_" + x] = x + "_"
+        for a in self.arrays:
+            m = re.match(r".*\[(\d+)\]$", strip_quals(self.vtype.get(a, "")))
+            if m and "a_" + a not in inits: inits["a_" + a] = "(repeat 0 %s)" % m.group(1)
         init = "; ".join("%s := %s" % (f, inits.get(f, "0" if f.startswith("v_") else "[]")) for f in allf)
         out.append("Definition run (fuel0 : nat) %s : option (Z * st) :=\n  match body fuel0 {| %s |} with\n  | OReturn v s => Some (v, s)\n  | ONormal s => Some (0, s)\n  | _ => None\n  end." % (" ".join(pnames), init))
         out.append("End %s." % self.name)
@@ -478,10 +622,12 @@ def main():
     srcdir, outv = sys.argv[1], sys.argv[2]
     known = {}; chunks = []; errors = []
     for spec in sys.argv[3:]:
-        parts = spec.split(":"); cfile, fname = parts[0], parts[1]; alias = parts[2] if len(parts) > 2 else "C_" + fname
+        parts = spec.split(":"); cfile, fname = parts[0], parts[1]; alias = parts[2] if len(parts) > 2 and parts[2] else "C_" + fname
+        chk = len(parts) > 3 and parts[3] == "chk"
         try:
-            f = Fn(clang_function(srcdir, cfile, fname), alias, known)
-            chunks.append("(* %s: %s() *)\n" % (cfile, fname) + f.emit()); known[fname] = f
+            kn = {k: v for k, v in known.items() if getattr(v, "chk", False) == chk}
+            f = Fn(clang_function(srcdir, cfile, fname), alias, {k.split("#")[0]: v for k, v in kn.items()}, chk=chk)
+            chunks.append("(* %s: %s()%s *)\n" % (cfile, fname, " with every array access checked (v__oob)" if chk else "") + f.emit()); known[fname + ("#chk" if chk else "")] = f
         except Unsupported as e:
             errors.append("%s:%s: %s" % (cfile, fname, e))
             chunks.append("(* %s: %s() NOT TRANSLATED: %s *)" % (cfile, fname, str(e).replace("*)", "* )")))
